@@ -178,6 +178,7 @@ struct Ctx {
 };
 static Ctx G;
 static vf::Args A;
+static bool g_rawvector = false;
 
 static void body_begin(const char* fn) {
 	G.body = "{\"fn\":\"";
@@ -371,6 +372,10 @@ template<class I, class E> static void case_insert(size_t m0, const Lst& S) {
 	std::string fault = guarded([&] { InsertVectorIndices(cv, idx); });
 	if (!fault.empty()) {
 		viol("InsertVectorIndices:" + T + ":out-of-container:" + CLS[c], "InsertVectorIndices<" + T + "> on " + std::to_string(m0) + " elements, indices " + show_vec(S.v) + ": " + fault);
+		if (g_rawvector) { // replay aid: show what the sanitizer says about the same call on a std::vector
+			std::vector<E> sv(orig.begin(), orig.end());
+			InsertVectorIndices(sv, idx);
+		}
 		return;
 	}
 	std::vector<char> m = mask_of(S.v, m0 + k);
@@ -705,14 +710,20 @@ static std::vector<ll> subset_of(unsigned mask) {
 	return s;
 }
 // all sequences of length 1..maxlen over the alphabet, f(seq)
+// (shorter sequences first, so that the first failing case reported for a key is a shortest one)
 template<class F> static void for_sequences(const std::vector<ll>& alpha, size_t maxlen, F&& f) {
-	std::vector<ll> s;
-	std::function<void()> rec = [&] {
-		if (!s.empty()) f(s);
-		if (s.size() == maxlen) return;
-		for (ll a : alpha) { s.push_back(a); rec(); s.pop_back(); }
-	};
-	rec();
+	for (size_t len = 1; len <= maxlen; len++) {
+		std::vector<size_t> d(len, 0);
+		std::vector<ll> s(len);
+		for (;;) {
+			for (size_t i = 0; i < len; i++) s[i] = alpha[d[i]];
+			f(s);
+			size_t p = len;
+			while (p > 0 && d[p - 1] + 1 == alpha.size()) d[--p] = 0;
+			if (p == 0) break;
+			d[p - 1]++;
+		}
+	}
 }
 // strictly ascending and every entry within [0, hi]  ->  already part of domain A
 static bool in_domain_a(const std::vector<ll>& s, ll hi) {
@@ -744,7 +755,7 @@ struct Tier {
 };
 static Tier tier_of(bool thorough) {
 	if (thorough) return Tier{6, 4, 7, 4, 4, 4, 6, 6, 6, 6, 5, 6, 4};
-	return Tier{4, 3, 5, 3, 3, 3, 4, 5, 4, 5, 3, 5, 2};
+	return Tier{5, 3, 6, 4, 3, 3, 5, 5, 5, 5, 4, 5, 3};
 }
 static Tier TR;
 
@@ -909,14 +920,24 @@ template<class F> static void for_pairs(size_t lo, size_t hi, size_t maxlen, F&&
 }
 
 // ---- 16-bit boundary cases
+// the same list may be written in two ways (e.g. [n] and [65535]): keep one
+static std::vector<Lst> uniq(const std::vector<Lst>& in) {
+	std::vector<Lst> out;
+	for (auto& l : in) {
+		bool seen = false;
+		for (auto& o : out) if (o.v == l.v) seen = true;
+		if (!seen) out.push_back(l);
+	}
+	return out;
+}
 static void unit_boundary(int part) {
 	if (part == 0) {
 		for (ll n : {65534ll, 65535ll}) {
-			std::vector<Lst> lists = {L({}), L({0}), L({n - 1}), L({0, n - 1}), Lranges({{0, n, 2}}), Lranges({{0, n, 1}}), Lranges({{1, n, 1}}), L({n}), L({0, n}), L({65535})};
+			std::vector<Lst> lists = uniq({L({}), L({0}), L({n - 1}), L({0, n - 1}), Lranges({{0, n, 2}}), Lranges({{0, n, 1}}), Lranges({{1, n, 1}}), L({n}), L({0, n}), L({65535})});
 			for (auto& s : lists) case_erase<uint16_t, int>((size_t) n, s);
 		}
 		for (ll n : {65535ll, 65536ll, 65537ll}) {
-			std::vector<Lst> lists = {L({0}), L({n - 1}), L({65535}), L({65534, 65535}), Lranges({{0, n, 2}}), Lranges({{0, n, 1}}), L({n}), L({0, n + 1})};
+			std::vector<Lst> lists = uniq({L({0}), L({n - 1}), L({65535}), L({65534, 65535}), Lranges({{0, n, 2}}), Lranges({{0, n, 1}}), L({n}), L({0, n + 1})});
 			for (auto& s : lists) {
 				case_erase<uint32_t, int>((size_t) n, s);
 				case_erase<int, int>((size_t) n, s);
@@ -925,14 +946,15 @@ static void unit_boundary(int part) {
 	}
 	else if (part == 1) {
 		// InsertVectorIndices: final size F = len + k
-		for (ll F : {65535ll, 65536ll}) {
-			std::vector<Lst> lists = {L({0}), L({F - 1}), L({0, F - 1}), Lranges({{0, F, 2}}), Lranges({{1, F, 2}}), Lranges({{0, F, 1}}), Lranges({{0, F - 1, 1}}), L({F - 2, F - 1})};
+		for (ll F : {65534ll, 65535ll}) {
+			std::vector<Lst> lists = uniq({L({0}), L({F - 1}), L({0, F - 1}), Lranges({{0, F, 2}}), Lranges({{1, F, 2}}), Lranges({{0, F, 1}}), Lranges({{0, F - 1, 1}}), L({F - 2, F - 1})});
 			for (auto& s : lists) case_insert<uint16_t, int>((size_t) (F - (ll) s.v.size()), s);
 		}
 		case_insert<uint16_t, int>(65534, L({65535})); // position == final size: out of range
 		case_insert<uint16_t, int>(65533, L({65535})); // position > final size
+		case_insert<uint16_t, int>(65533, L({65534, 65535}));
 		for (ll F : {65536ll, 65537ll}) {
-			std::vector<Lst> lists = {L({0}), L({F - 1}), L({0, F - 1}), Lranges({{0, F, 2}}), Lranges({{0, F, 1}}), L({65535, 65536})};
+			std::vector<Lst> lists = uniq({L({0}), L({F - 1}), L({0, F - 1}), Lranges({{0, F, 2}}), Lranges({{0, F, 1}}), L({65535, 65536})});
 			for (auto& s : lists) {
 				if (s.v.back() >= F) continue;
 				case_insert<uint32_t, int>((size_t) (F - (ll) s.v.size()), s);
@@ -942,7 +964,7 @@ static void unit_boundary(int part) {
 	}
 	else if (part == 2) {
 		for (ll ms : {65534ll, 65535ll}) {
-			std::vector<Lst> lists = {L({}), L({0}), L({ms - 1}), L({0, ms - 1}), Lranges({{0, ms, 2}}), Lranges({{0, ms, 1}}), L({ms}), L({65535})};
+			std::vector<Lst> lists = uniq({L({}), L({0}), L({ms - 1}), L({0, ms - 1}), Lranges({{0, ms, 2}}), Lranges({{0, ms, 1}}), L({ms}), L({65535})});
 			for (auto& s : lists) {
 				case_collapse<uint16_t, uint16_t>(s, ms);
 				case_collapse<uint16_t, size_t>(s, ms);
@@ -986,6 +1008,17 @@ static void unit_boundary(int part) {
 			TriLst t = TL({Triangle(0, 65535, 1), Triangle(65534, 65535, 65533)});
 			case_applymap<int, int>(t.v, t.json, big, "{\"descending\":65536}", true);
 		}
+	}
+	else if (part == 5) {
+		// opt-in (--beyond16 1): containers with more elements than the 16-bit index type can count.  Outside the
+		// property's quantifier (no caller has them); kept for inspection only.
+		alarm(60);
+		case_insert<uint16_t, int>(65535, L({0}));      // final size 65536, every position still representable
+		case_insert<uint16_t, int>(65535, L({65535}));
+		case_erase<uint16_t, int>(65536, L({65535}));
+		case_expand<uint16_t, uint16_t>(L({0, 1}), 65535); // largest entry 65536
+		case_insert<uint16_t, int>(65536, L({0}));      // final size 65537
+		case_erase<uint16_t, int>(65536, L({0}));
 	}
 	else {
 		Lst longStrip = Lcycle({0, 1, 2, 3}, 65535), degenerate = Lcycle({0, 0, 1}, 65535), four = L({0, 1, 2, 3}), five = L({3, 2, 1, 0, 1});
@@ -1103,8 +1136,9 @@ int main(int argc, char** argv) {
 	A = vf::parse_args(argc, argv);
 	Stats top;
 	TR = tier_of(A.thorough());
-	const bool withB = A.geti("precond", 1) != 0; // domain B on/off
+	const bool withB = A.geti("precond", 0) != 0; // domain B (lists breaking the documented sorted-ascending precondition): outside the property's quantifier ("sorted index list", "index subsets"), off by default
 	const std::string only = A.get("only");
+	g_rawvector = !A.replay.empty() && A.geti("rawvector", 0) != 0;
 
 	J replayCase;
 	std::vector<Unit> units;
@@ -1128,7 +1162,8 @@ int main(int argc, char** argv) {
 			for (int t2 = 0; t2 < 4; t2++) units.push_back({K_MAPS, t1, t2});
 		for (int t = 0; t < 4; t++) units.push_back({K_STRIP1, t, 0});
 		units.push_back({K_DELPARTS, 0, 0});
-		for (int p = 0; p < 5; p++) units.push_back({K_BOUNDARY, p, 0});
+		for (int p = 0; p < 5; p++) units.push_back({K_BOUNDARY, p == 4 ? 6 : p, 0});
+		if (A.geti("beyond16", 0)) units.push_back({K_BOUNDARY, 5, 0});
 		if (!only.empty()) {
 			std::vector<Unit> f;
 			for (auto& u : units) if (only == KIND[u.kind]) f.push_back(u);
@@ -1202,7 +1237,7 @@ int main(int argc, char** argv) {
 		if (G.stop) st.capped(std::string("deadline reached inside unit ") + KIND[u.kind] + "/" + std::to_string(u.a) + "/" + std::to_string(u.b));
 		st.add("units");
 		st.add(std::string("cases_") + KIND[u.kind], G.ord);
-		if (st.samples.empty() && (u.kind == K_EI || u.kind == K_TRI || u.kind == K_STRIP2 || u.kind == K_KEYS || u.kind == K_MAPS) && !G.body.empty() && (ui % 7) == 0) st.sample(case_j());
+		if (!G.body.empty() && u.kind != K_REPLAY && (ui == 0 || units[ui - 1].kind != u.kind)) st.sample(case_j()); // last case of the first unit of each kind
 		for (uint32_t o : G.outcomes) st.distinct("outcomes", vf::strf("%s/%u/%u/%u", FN_NAMES[o >> 24], (o >> 16) & 255, (o >> 8) & 255, o & 255));
 	};
 	auto crash_fn = [&](size_t ui, const vf::CrashInfo& ci, const std::string& inflight, Stats& parent) -> std::string {
